@@ -24,6 +24,11 @@ CLAIMED["C13"] = dict(
    note="Trusted: Coq kernel; goextract (command table translator); extraction + OCaml driver. 'Valid arity' is the visible hypothesis of the theorem (the Go code panics on a malformed arity; not generated). Commands with a getkeys procedure are commented out in the table and therefore pass unfiltered by design (documented, not claimed). The path through the incremental parser is exercised by C03.",
    technique="Coq proof (induction over key groups) + regenerated command table + exhaustive differential run over assignments",
    design="DESIGN.md section 5, C13")
+CLAIMED["C18"] = dict(
+   text="Theorems in coq/Props/C18.v (closed, no axioms) over a Gallina model of backlog.go/buff.go/file.go (ring of [size] cells addressed by absolute write position): for EVERY capacity, every sequence of writes of any sizes (any number of wrap-arounds) and every read request, with log = all bytes written: a read returns exactly the log's bytes at that offset onward (never other bytes), waits iff the offset equals the write position, fails with invalid-offset iff the offset is beyond the writer or more than one capacity behind it; one Write appends all its bytes and never blocks; DataRange = the most recent min(total, capacity) bytes; a reader is valid iff its position is inside that range; after Close every read fails (refinement ring -> infinite log + window, invariant by induction over the writes). Differential run: op sequences (Write/ReadAt/Reader.Read/SeekTo/IsValid/DataRange/Close, parked reads issued on goroutines and woken by later writes/close) on memory (4096/8192) and file (4 MiB) backlogs vs the extracted ring model, plus an independent log-based oracle.",
+   note="Trusted: Coq kernel; extraction + OCaml driver; sync.Mutex/sync.Cond and os.File ReadAt/WriteAt/Truncate are runtime (the model serialises every operation under the mutex; a parked read is re-evaluated after each broadcast). 64-bit position overflow not modelled (positions are unbounded N). Writes larger than the capacity while a reader is parked are not generated (outcome depends on scheduling between write chunks).",
+   technique="Coq proof (refinement to an infinite log, invariant by induction over writes) + differential run on op sequences",
+   design="DESIGN.md section 5, C18")
 NOT_YET = {}
 props = [json.loads(l) for l in open(os.path.join(V, "properties.jsonl"))]
 hooks = subprocess.run(["git", "-C", "/repo", "log", "--format=%H %s"], capture_output=True, text=True).stdout.strip().split("\n")
